@@ -36,6 +36,10 @@ class _RemoveOptionalBias(RewriteRuleClassBase):
         del context  # Unused
         check_result = MatchResult()
 
+        # An initializer that is also a graph input is only a default value.
+        if b.is_graph_input():
+            return check_result.fail("Bias is a graph input.")
+
         # Check if bias is a constant/initializer
         bias_tensor = ir.convenience.get_const_tensor(b)
         if bias_tensor is None:
